@@ -3,4 +3,5 @@ pub mod c04;
 pub mod c05;
 pub mod c12;
 pub mod c13;
+pub mod c14;
 pub mod common;
